@@ -208,7 +208,9 @@ fn validate(src: &str) -> Result<Option<Vec<Seen>>, (String, Value)> {
                             // control characters have no rendering: compared without them
                             // (and tabs are rendered as runs of blanks: compared without white space)
                             let vis = |t: &str| -> String { t.chars().filter(|c| !c.is_control() && !c.is_whitespace()).collect() };
-                            if !line.trim().is_empty() && !d.contains(line.trim_end()) && !vis(d).contains(&vis(line)) {
+                            // (an ESC character starts a terminal escape sequence, which the plain rendering strips
+                            // together with the characters after it: such lines are not compared)
+                            if !line.trim().is_empty() && !line.contains('\u{1b}') && !d.contains(line.trim_end()) && !vis(d).contains(&vis(line)) {
                                 return Err((
                                     "rendered message does not quote the line containing the span".into(),
                                     json!({"reason": m.reason, "line": line, "display": d}),
